@@ -6,6 +6,8 @@
    Arrays are {shape; cells} in row-major order with ABSTRACT cells V.  What a NumPy function returns is
    a parameter of every wrapper (an [npres]: an array, or anything that is not array-like - a NumPy scalar,
    a tuple - of abstract type W): the wrapper only ever inspects the SHAPE of that result.
+   Follows /repo as repaired: 0-d results are passed through, multi-output ufuncs are wrapped per output,
+   np.array_split divides the index with np.array_split.
    np.split / np.array_split's division points and np.allclose's broadcasting rule (used by
    _check_time_equals) are transcribed from NumPy (its contract; exercised by the correspondence check).
    No proofs in this file. *)
@@ -13,7 +15,6 @@ From Verif Require Import Base.Prelude Model.Restrict Model.Iset Model.Count Mod
 
 Inductive cls := CTsd | CFrame | CTensor.
 Inductive err :=
-  | EIndex            (* IndexError: values.shape[0] of a 0-d array in _initialize_tsd_output *)
   | EAssertLen        (* AssertionError: length of values does not match length of index *)
   | EAssertDim        (* AssertionError: Tsd needs 1-d data, TsdFrame <= 2-d *)
   | ERuntimeDim       (* RuntimeError: TsdTensor needs >= 3-d data *)
@@ -86,7 +87,7 @@ Definition init_out (x : ts) (ti : list Z) (r : npres) : out :=
   | NOther o => OOther o
   | NArr a =>
       match shape a with
-      | [] => OErr EIndex
+      | [] => OArr a                    (* values.ndim > 0 fails: a 0-d array is returned as it is *)
       | n0 :: _ =>
           if (n0 =? length ti)%nat then
             let k := get_class a in
@@ -106,6 +107,13 @@ Definition array_ufunc (x : ts) (is_call : bool) (n_same : nat) (f : arr -> npre
   if negb is_call then ORefused
   else if (1 <? n_same)%nat then ORefused
   else init_out x (t_of x) (f (dat x)).
+
+(* a ufunc with several outputs (np.modf, np.frexp, np.divmod) returns a tuple: every element goes through
+   _initialize_tsd_output on its own.  None = refused *)
+Definition array_ufunc_multi (x : ts) (is_call : bool) (n_same : nat) (f : arr -> list npres) : option (list out) :=
+  if negb is_call then None
+  else if (1 <? n_same)%nat then None
+  else Some (map (init_out x (t_of x)) (f (dat x))).
 
 (* __array_function__: the exclusion list, np.fft.*, and everything that is neither split nor concatenate *)
 Inductive fkind := FExcluded | FFft | FPlain.
@@ -225,10 +233,11 @@ Definition row_pieces (pts : list nat) (a : arr) : list arr :=
   map (arr_of_rows (tl (shape a))) (pieces_of pts (rows a)).
 
 (* np.split / np.vsplit (array_split = false) or np.array_split (array_split = true), axis 0:
-   the values are divided by the function itself, the index ALWAYS by np.split *)
+   the values are divided by the function itself, the index by np.array_split for np.array_split and by
+   np.split otherwise (as repaired): the same division points *)
 Definition split_tsd (x : ts) (array_split : bool) (ios : nat + list nat) : list out + err :=
   let n := length (t_of x) in
-  match np_div_points (negb array_split) ios n, np_div_points true ios n with
+  match np_div_points (negb array_split) ios n, np_div_points (negb array_split) ios n with
   | Some pv, Some pi =>
       inl (map (fun td => init_out x (fst td) (NArr (snd td)))
                (combine (pieces_of pi (t_of x)) (row_pieces pv (dat x))))
@@ -246,7 +255,7 @@ Arguments chunk {V}. Arguments rows {V}. Arguments arr_of_rows {V}. Arguments ta
 Arguments mkTs {V}. Arguments kls {V}. Arguments t_of {V}. Arguments sup_of {V}. Arguments dat {V}. Arguments cols {V}.
 Arguments NArr {V W}. Arguments NOther {V W}.
 Arguments OTs {V W}. Arguments OArr {V W}. Arguments OOther {V W}. Arguments ORefused {V W}. Arguments OErr {V W}.
-Arguments construct {V W}. Arguments init_out {V W}. Arguments array_ufunc {V W}. Arguments array_function {V W}.
+Arguments construct {V W}. Arguments init_out {V W}. Arguments array_ufunc {V W}. Arguments array_ufunc_multi {V W}. Arguments array_function {V W}.
 Arguments method_call {V W}. Arguments as_npres {V W}. Arguments mixed_ufunc {V W}.
 Arguments naps {V}. Arguments op_arr {V}. Arguments concat_tsd {V W}. Arguments cat0 {V}.
 Arguments row_pieces {V}. Arguments split_tsd {V W}. Arguments split_other {V W}.
